@@ -75,6 +75,12 @@ PURE = (
 )
 COMMUTATIVE = ("usize::checked_add", "usize::checked_mul", "usize::saturating_add", "usize::wrapping_add", "u32::checked_add", "u32::saturating_add",
                "i64::checked_add", "i64::checked_mul", "i64::wrapping_add", "i64::saturating_add", "Ord::min", "Ord::max", "i64::min", "i64::max")
+LAZY = ("IntoIterator::into_iter", "[T]::iter", "Iterator::rev", "Iterator::map", "Iterator::take", "Iterator::skip", "Iterator::enumerate", "Iterator::zip", "Iterator::cloned",
+        "Iterator::copied", "Iterator::filter", "Iterator::flat_map", "Iterator::flatten", "Iterator::chain", "iter::repeat_n", "iter::repeat_with", "iter::repeatn",
+        "IntoParallelIterator::into_par_iter", "ParallelIterator::map_init", "ParallelIterator::map", "Distribution::sample_iter")
+CONSUMERS = ("Iterator::collect", "Iterator::sum", "Iterator::count", "Iterator::max", "Iterator::min", "Iterator::last", "Iterator::fold", "Iterator::for_each",
+             "Iterator::try_for_each", "Iterator::all", "Iterator::any", "Iterator::find", "Iterator::position", "ParallelIterator::collect", "FromIterator::from_iter",
+             "Extend::extend", "Vec::extend")
 TRANSPARENT = ("Deref::deref", "DerefMut::deref_mut", "Vec::as_slice", "Vec::as_mut_slice", "Borrow::borrow", "BorrowMut::borrow_mut")
 NUMCONV = ("NonZero::get",)
 SWAP = {"Gt": "Lt", "Ge": "Le"}
@@ -104,6 +110,8 @@ class Summariser:
         self.order = {}
         self.clo_cache = {}
         self.cur_fn = None
+        self.cparams = None
+        self._mentions_ignored = False
 
     def of(self, fn):
         if fn.id in self.cache:
@@ -133,16 +141,20 @@ class Summariser:
         self.cache[fn.id] = res
         return res
 
-    def closure_body(self, cf, caps):
-        """digest of a closure body with its captured variables replaced by the (canonical) captured values"""
-        key = (cf.id, repr(caps))
+    def closure_body(self, cf, caps, params=None, gmap=None):
+        """digest of a closure body with its captured variables replaced by the (canonical) captured values (and, when
+        given, its parameters by `params`)"""
+        key = (cf.id, repr(caps), repr(params), repr(gmap))
         if key in self.clo_cache:
             return self.clo_cache[key]
         if key in self.busy:
             return ("recursive", cf.id)
         self.busy.add(key)
         saved = (self.upenv, self.order)
+        saved_params = self.cparams
+        self._mentions_ignored = False
         try:
+            self.cparams = {i + 2: v for i, v in enumerate(params)} if params is not None else None
             w = sym.Walker(cf, self.F, canon=True, keep_env=True)
             w.inline_all = True
             saved_fn = self.cur_fn
@@ -155,11 +167,16 @@ class Summariser:
             for p in paths:
                 if p.end == "unreachable":
                     continue
+                if gmap:
+                    p = sym.subst_generics_path(p, dict(gmap))
                 self.upenv = caps
                 out.add(self.path_key(p))
-            r = hashlib.sha1(repr(sorted(map(repr, out))).encode()).hexdigest()
+            txt = repr(sorted(map(repr, out)))
+            self._mentions_ignored = "ignored-element" in txt
+            r = hashlib.sha1(txt.encode()).hexdigest()
         finally:
             self.upenv, self.order = saved
+            self.cparams = saved_params
             self.cur_fn = saved_fn if 'saved_fn' in dir() else self.cur_fn
             self.busy.discard(key)
         self.clo_cache[key] = r
@@ -260,26 +277,74 @@ class Summariser:
         ty = fn.locals[root[1]]["ty"].get("s", "")
         return ty.startswith("&mut") or not ty or ty[:1].isupper()      # a generic T may itself be a &mut
 
+    def closure_effectful(self, a):
+        cf = self.F.fns.get(a[2])
+        if cf is None:
+            return True
+        s = self.of(cf)
+        if not isinstance(s[1], frozenset):
+            return True
+        return any(pk[1] for pk in s[1])
+
+    def has_effectful_closure(self, e):
+        for x in sym.subexprs(e):
+            if isinstance(x, tuple) and x and x[0] == "agg" and x[1] == "closure" and self.closure_effectful(x):
+                return True
+            if isinstance(x, tuple) and x and x[0] == "fnitem":
+                return True          # a function item handed to an adaptor: not known to be pure
+        return False
+
     def is_pure(self, c):
         if c[1] is None:
             return False
+        if callee_is(c, *LAZY):
+            return True              # building a lazy iterator does nothing; what it does happens where it is consumed
+        if callee_is(c, *CONSUMERS):
+            return not self.has_effectful_closure(c)
         if callee_is(c, *PURE):
-            # an iterator adaptor fed with a closure is as pure as the closure's body is; keep it simple: adaptors that
-            # take a closure are pure only if that closure's summary has no effectful event
-            for a in c[3]:
-                a = sym.strip_refs(a)
-                if isinstance(a, tuple) and a[0] == "agg" and a[1] == "closure":
-                    cf = self.F.fns.get(a[2])
-                    if cf is None:
-                        return False
-                    s = self.of(cf)
-                    if not isinstance(s[1], frozenset):
-                        return False
-                    for pk in s[1]:
-                        if pk[1]:
-                            return False
-            return True
+            return not any(isinstance(a, tuple) and sym.strip_refs(a)[:2] == ("agg", "closure") and self.closure_effectful(sym.strip_refs(a)) for a in c[3])
         return False
+
+    def rep(self, e):
+        """n-fold repetition of one computation, however the iterator is spelled: repeat_n(x, n).map(f), repeat_with(f).take(n),
+        (0..n).map(|_| f) and the rayon forms repeatn(x, n).map_init(i, f), (0..n).into_par_iter().map_init(i, f)"""
+        IGN = ("ignored-element",)
+        def clo(a):
+            a = sym.strip_refs(a)
+            return a if (isinstance(a, tuple) and a[:2] == ("agg", "closure") and a[2] in self.F.fns) else None
+        def body(c, params):
+            return self.closure_body(self.F.fns[c[2]], tuple(self.ex(x) for x in c[3]), params, c[4] if len(c) > 4 else None)
+        def range0(a):
+            a = sym.strip_refs(a)
+            if callee_is(a, "IntoIterator::into_iter", "IntoParallelIterator::into_par_iter") and len(a[3]) == 1:
+                a = sym.strip_refs(a[3][0])
+            if a[0] == "agg" and a[2].endswith("Range::Range") and len(a[3]) == 2 and a[3][0][0] == "const" and a[3][0][3] == 0:
+                return a[3][1]
+            return None
+        if callee_is(e, "Iterator::map") and len(e[3]) == 2 and clo(e[3][1]):
+            src = sym.strip_refs(e[3][0])
+            if callee_is(src, "iter::repeat_n") and len(src[3]) == 2:
+                return ("rep", self.ex(src[3][1]), body(clo(e[3][1]), (self.ex(src[3][0]),)))
+            n = range0(src)
+            if n is not None:
+                b = body(clo(e[3][1]), (IGN,))
+                if b is not None and not self._mentions_ignored:
+                    return ("rep", self.ex(n), b)
+        if callee_is(e, "Iterator::take") and len(e[3]) == 2:
+            src = sym.strip_refs(e[3][0])
+            if callee_is(src, "iter::repeat_with") and len(src[3]) == 1 and clo(src[3][0]):
+                return ("rep", self.ex(e[3][1]), body(clo(src[3][0]), ()))
+        if callee_is(e, "ParallelIterator::map_init") and len(e[3]) == 3 and clo(e[3][2]):
+            src = sym.strip_refs(e[3][0])
+            init = self.ex(e[3][1])
+            if callee_is(src, "iter::repeatn", "iter::repeat_n") and len(src[3]) == 2:
+                return ("prep", self.ex(src[3][1]), init, body(clo(e[3][2]), (("worker-state",), self.ex(src[3][0]))))
+            n = range0(src)
+            if n is not None:
+                b = body(clo(e[3][2]), (("worker-state",), IGN))
+                if b is not None and not self._mentions_ignored:
+                    return ("prep", self.ex(n), init, b)
+        return None
 
     def cond(self, c):
         e, v = c[0], c[1]
@@ -335,6 +400,8 @@ class Summariser:
             if self.upenv is not None and isinstance(e[2], int) and e[2] < len(self.upenv):
                 return self.upenv[e[2]]
             return ("upvar", e[1])
+        if t == "param" and self.cparams is not None and self.upenv is not None and e[1] in self.cparams:
+            return self.cparams[e[1]]
         if t == "param" or t == "cparam":
             return e[:2]
         if t == "const":
@@ -346,6 +413,9 @@ class Summariser:
         if t == "call":
             if e[1] is None:
                 return ("callv", tuple(self.ex(a) for a in e[3]), self.order.get(e[4]))
+            r = self.rep(e)
+            if r is not None:
+                return r
             if len(e[3]) == 1 and callee_is(e, *TRANSPARENT):
                 return self.ex(e[3][0])
             if len(e[3]) == 1 and callee_is(e, "Vec::len", "[T]::len"):
@@ -353,6 +423,26 @@ class Summariser:
             if len(e[3]) == 1 and (callee_is(e, *NUMCONV) or callee_is(e, "Into::into", "From::from")):
                 return ("conv", self.ex(e[3][0]))
             args = tuple(self.ex(a) for a in e[3])
+            if len(args) == 1 and callee_is(e, "TryInto::try_into"):
+                from .canon import _as_parts
+                pp = _as_parts(e[2] or "")
+                if pp and len(pp[2]) == 1:           # <A as TryInto<B>>::try_into(x) is <B as TryFrom<A>>::try_from(x)
+                    return ("call", normfull("<%s as std::convert::TryFrom<%s>>::try_from" % (pp[2][0], pp[0])), args, self.order.get(e[4]))
+            if callee_is(e, *(LAZY + CONSUMERS)) and (e[2] or "").startswith("<"):
+                # the receiver type of an iterator method spells out the whole pipeline: keep trait::method::<generic args>
+                from .canon import _as_parts
+                pp = _as_parts(e[2])
+                depth, close = 0, None
+                for i, ch in enumerate(e[2]):
+                    if ch == "<":
+                        depth += 1
+                    elif ch == ">":
+                        depth -= 1
+                        if depth == 0:
+                            close = i
+                            break
+                if pp and close is not None and e[2][close + 1:close + 3] == "::":
+                    return ("call", normfull("%s::%s" % (pp[1], e[2][close + 3:])), args, self.order.get(e[4]))
             if len(args) == 2 and callee_is(e, *COMMUTATIVE):
                 args = tuple(sorted(args, key=repr))
             return ("call", normfull(e[2] or e[1]), args, self.order.get(e[4]))
@@ -384,7 +474,7 @@ class Summariser:
                 caps = tuple(self.ex(a) for a in e[3])
                 if cf is None:
                     return ("closure", e[2], caps)
-                return ("closure", self.closure_body(cf, caps))
+                return ("closure", self.closure_body(cf, caps, None, e[4] if len(e) > 4 else None))
             return ("agg", e[1], e[2], tuple(self.ex(a) for a in e[3]))
         if t == "index":
             return ("index", self.ex(e[1]), self.ex(e[2]))
@@ -494,8 +584,8 @@ def apply_reference(F):
         F.reference_report["available"] = False
         F.reference_report["note"] = "profile differs from the reference extraction: bodies are analysed as they are"
         return
-    sc, sr = Summariser(F), Summariser(R)
     roots = [f for f in F.fns.values() if not f.is_closure and f.kind != "InlineConst"]
+    changed = []
     for f in sorted(roots, key=lambda x: x.id):
         g = R.fns.get(f.id)
         if g is None:
@@ -505,11 +595,34 @@ def apply_reference(F):
         fam_r = [g] + [R.fns[c] for c in R.closures_of(g.id) if c in R.fns]
         if len(fam_c) == len(fam_r) and all(raw_sig(a) == raw_sig(b) and a.id == b.id for a, b in zip(fam_c, fam_r)):
             continue
-        try:
-            same = sc.of(f) == sr.of(g) and isinstance(sc.of(f)[1], frozenset)
-        except Exception:
-            same = False
-        if same:
+        changed.append((f, g, fam_c, fam_r))
+    # Functions that really differ from their reference version are not seen through when their callers are
+    # compared (on either side): a caller that only *calls* a changed function is still the same caller, and the
+    # changed function is judged on its own.  Iterate until no further function becomes equivalent.
+    blocked = set()
+    equivalent = set()
+    for _round in range(4):
+        F.noinline = R.noinline = frozenset(blocked)
+        F._inline_cache, R._inline_cache = {}, {}
+        sc, sr = Summariser(F), Summariser(R)
+        diff_now = set()
+        for f, g, fam_c, fam_r in changed:
+            if f.id in equivalent:
+                continue
+            try:
+                same = sc.of(f) == sr.of(g) and isinstance(sc.of(f)[1], frozenset)
+            except Exception:
+                same = False
+            if same:
+                equivalent.add(f.id)
+            else:
+                diff_now.add(f.id)
+        if diff_now <= blocked:
+            break
+        blocked |= diff_now
+    F.noinline = R.noinline = frozenset()
+    for f, g, fam_c, fam_r in changed:
+        if f.id in equivalent:
             F.reference_report["equivalent"].append(f.id)
             for x in fam_c:
                 F.fns.pop(x.id, None)
